@@ -12,7 +12,7 @@ Oracle ops for the `dec` family (C05): the resumable scanners and the refill loo
   dec stream <opts: bit0 allowDup, bit1 allowInvalidUTF8> <n> <event>*                → the results of n ReadToken calls of the
         streaming decoder model (Model/Stream.lean); event = hex chunk | `-` empty chunk | `F` fault | `E` eof;
         results joined by `;`: `T<kind>:<start>:<stop>` | `X<class>:<offset>` | `F`
-  dec script <opts> <calls: a word over T V S = ReadToken ReadValue SkipValue> <event>*   → the results of the script on the
+  dec script <opts> <calls: a word over T V S P = ReadToken ReadValue SkipValue PeekKind (`K<kind>`)> <event>*   → the results of the script on the
         streaming model; a value is `T<kind>:<start>:<stop>`, a SkipValue `S:<stop>`
   dec wscript <opts> <calls> <hex>                             → the same script on the whole-buffer model
   dec whole <opts> <n> <hex>                                   → the same calls on the whole-buffer model (TokenLoop)
@@ -43,12 +43,17 @@ def outStr : Stream.Out → String
   | .tok k a b => s!"T{k.toNat}:{a}:{b}"
   | .skip b => s!"S:{b}"
 
-def parseCalls (s : String) : Option (List Stream.Call) :=
+def parseCalls (s : String) : Option (List Stream.CallP) :=
   s.toList.mapM fun c =>
-    if c == 'T' then some Stream.Call.readToken
-    else if c == 'V' then some Stream.Call.readValue
-    else if c == 'S' then some Stream.Call.skipValue
+    if c == 'T' then some Stream.CallP.readToken
+    else if c == 'V' then some Stream.CallP.readValue
+    else if c == 'S' then some Stream.CallP.skipValue
+    else if c == 'P' then some Stream.CallP.peekKind
     else none
+
+def outPStr : Stream.OutP → String
+  | .out o => outStr o
+  | .kind k => s!"K{k.toNat}"
 
 def parseEvents (args : List String) : Option (List Stream.Event) :=
   args.mapM fun a =>
@@ -104,11 +109,11 @@ def handle (op : String) (args : List String) : String :=
     | _, _, _ => badArgs
   | "script", o :: cs :: evs =>
     match o.toNat?, parseCalls cs, parseEvents evs with
-    | some o, some cs, some es => ";".intercalate ((Stream.runScript (vopts o) cs (Stream.init es)).map outStr)
+    | some o, some cs, some es => ";".intercalate ((Stream.runScriptP (vopts o) cs { s := Stream.init es }).map outPStr)
     | _, _, _ => badArgs
   | "wscript", [o, cs, h] =>
     match o.toNat?, parseCalls cs, bytesOfHex h with
-    | some o, some cs, some b => ";".intercalate ((Stream.wholeScript (vopts o) cs { r := b }).map outStr)
+    | some o, some cs, some b => ";".intercalate ((Stream.wholeScriptP (vopts o) cs { r := b }).map outPStr)
     | _, _, _ => badArgs
   | "whole", [o, n, h] =>
     match o.toNat?, n.toNat?, bytesOfHex h with
